@@ -70,7 +70,11 @@ def run_impl(inst, explicit_positions):
             gls = [PhredGenotypeLikelihoods(list(inst["gl"][i][c])) for c in range(C)]
             ped.add_individual(f"ind{i}", gts, gls)
         else:
-            ped.add_individual(f"ind{i}", [G[inst["gt"][i][c]] for c in range(C)], None)
+            # trusted genotypes: likelihoods handed over all the same (every other instance) must not enter the cost
+            gls = None
+            if (len(inst["reads"]) + C + sum(inst["gt"][i])) % 2 == 0:
+                gls = [PhredGenotypeLikelihoods([3 + c, 7, 11 + i]) for c in range(C)]
+            ped.add_individual(f"ind{i}", [G[inst["gt"][i][c]] for c in range(C)], gls)
     for f, m, c in trios:
         ped.add_relationship(f"ind{f}", f"ind{m}", f"ind{c}")
     positions = [(c + 1) * 10 for c in range(C)] if explicit_positions else None
